@@ -1078,6 +1078,8 @@ func (e *Engine) strLit(s string) *Term {
 	e.strLitVals[t] = s
 	// facts: length, id, characters for short literals
 	fs := []*Term{c.Eq(c.App("s.len", Int, t), c.IntC(int64(len(s)))), c.Eq(c.App("s.id", Int, t), c.IntC(int64(id)))}
+	// a literal of the program is safe to emit (see the spec builtin safe_)
+	fs = append(fs, c.App("s.safe", Bool, t))
 	if len(s) <= 32 {
 		for i := 0; i < len(s); i++ {
 			fs = append(fs, c.Eq(c.App("s.at", BV8, t, c.IntC(int64(i))), c.BVC(int64(s[i]))))
